@@ -17,7 +17,7 @@ BOUNDS = {
     "quick": "d in {2,3}; concrete rational orthogonal boxes with unequal edges; all real positions; N=3 (K<=3) and ladders N=K+1 "
              "(K=4,5,6); explicit integer q lists (Q<=4, several with equal |q|) and the default set for symbolic qrange with "
              "numofq in {2,3,4}; F<=2; default wave-vector table decided against its definition for numofq<=8 (2D), <=6 (3D)",
-    "thorough": "as quick plus N=4, Q<=6 and d=3 for every K",
+    "thorough": "as quick plus N<=5 (7 for K=6), F<=3, Q<=6 and d=3 for K<=4",
 }
 STUBS = ["cos/sin of the phase -> one (c,s) pair per distinct phase (structural cache), c^2+s^2=1",
          "DataFrame.round(6) -> identity (stated deviation 5e-7)", "groupby(|q|).mean() on symbolic columns -> facade"]
@@ -235,6 +235,11 @@ def cfg(tier, seed):
         out.append(dict(d=3, N=2, F=1, K=1, types=[1, 1], box=1, qrange="sym", onlypositive=True))
         out.append(dict(d=3, N=3, F=1, K=3, types=[3, 1, 2], box=0, qvec=q3))
         out.append(dict(d=2, N=4, F=1, K=2, types=[1, 2, 1, 2], box=0, qvec=q2 + [[0, -1], [2, 0]]))
+        out.append(dict(d=2, N=5, F=3, K=3, types=[1, 2, 3, 1, 2], box=2, qvec=q2))
+        out.append(dict(d=3, N=4, F=2, K=2, types=[2, 1, 1, 2], box=1, qvec=q3 + [[0, 1, -1], [2, 0, 0]]))
+        out.append(dict(d=3, N=5, F=2, K=4, types=[1, 2, 3, 4, 1], box=0, qvec=q3[:3]))
+        out.append(dict(d=2, N=7, F=2, K=6, types=[1, 2, 3, 4, 5, 6, 3], box=1, qvec=q2[:2]))
+        out.append(dict(d=3, N=3, F=1, K=1, types=[1, 1, 1], box=2, qrange="sym", onlypositive=False))
     return out
 
 
